@@ -487,6 +487,9 @@ func c08NewTarget(arch string, rt *types.Package) *c08Target {
 }
 
 func (tg *c08Target) newPkg() {
+	if tg.pkg != nil {
+		tg.pkg.mod.Dispose() // constants already read back; bounds memory in the thorough tier
+	}
 	tg.npkg++
 	tg.pkg = tg.prog.NewPackage("c08", fmt.Sprintf("c08/%s/%d", tg.arch, tg.npkg))
 	fn := tg.pkg.NewFunc("c08f", NoArgsNoRet, InC)
@@ -837,7 +840,10 @@ func (tg *c08Target) layout(T types.Type) (o c08Layout) {
 	aliasEffect := mgS != mcS || mgA != mcA || !c08Eq(mgO, mcO)
 	mlS, mlA, mlO := tg.model(T, tg.lla64, 2)
 	_, natA, _ := tg.model(T, 8, 2)
-	restOK := o.GSize == mcS && o.GAlign == mcA && c08Eq(o.GOffs, mcO) &&
+	gIsCur := o.GSize == mcS && o.GAlign == mcA && c08Eq(o.GOffs, mcO)
+	gIsFixed := o.GSize == mgS && o.GAlign == mgA && c08Eq(o.GOffs, mgO)
+	aliasEffect = aliasEffect && gIsCur && !gIsFixed
+	restOK := (gIsCur || gIsFixed) &&
 		o.RSize == mgS && o.RAlign == mgA && c08Eq(o.ROffs, mgO) &&
 		o.DSize == o.RSize && o.DAlign == natA && o.DFAlign == natA
 	o.modelOK = restOK && (o.DPtr == o.PG || o.DPtr == o.PCur) && o.LSize == mlS && o.LAlign == mlA && c08Eq(o.LOffs, mlO)
@@ -1004,8 +1010,8 @@ func (tg *c08Target) check(T types.Type, emitDesc bool) (res c08Result) {
 			if e.keySlot != wantK || e.valSlot != wantV || e.flag&3 != wantF {
 				cls := ""
 				// present behaviour: uint8(abi.Size) in the slot fields, flags from go/types sizes
-				gK, gfk := slot(ko.GSize)
-				gV, gfv := slot(vo.GSize)
+				gK, gfk := slot(ko.RSize) // abi.Builder asks the wrapper about the raw type
+				gV, gfv := slot(vo.RSize)
 				curK, curV, curF := ko.DSize&0xff, vo.DSize&0xff, gfk|gfv<<1
 				switch {
 				case ko.modelOK && vo.modelOK && e.keySlot == gK && e.valSlot == gV && e.flag&3 == curF && (ko.kclass != "" || vo.kclass != ""):
